@@ -27,7 +27,8 @@
    theorems quantify over arbitrary schedules, any number of transactions and
    any program lengths. *)
 From Coq Require Import List Arith Bool ZArith Lia PeanoNat.
-From Semadb Require Import Model_C11 Proofs_C11 Proofs_C11b Proofs_C11c Proofs_C11d.
+From Coq Require String.
+From Semadb Require Import TxOrder Model_C11 Proofs_C11 Proofs_C11b Proofs_C11c Proofs_C11d.
 Import ListNotations.
 
 (* ---------------------------------------------------------------------------
@@ -259,3 +260,28 @@ Example c11_example_limits :
   mmap (run true true 1 (rep 14 (LT 0)) (init [[OWith 0 true OK; OWith 1 true OK; OCommit false]])) = [(1, 1)] /\
   mmap (run true true 0 (rep 14 (LT 0)) (init [[OWith 0 true OK; OWith 1 false OK; OCommit false]])) = [].
 Proof. vm_compute. repeat split; reflexivity. Qed.
+
+(* ---------------------------------------------------------------------------
+   Access modes at the call sites. The theorems above speak about transactions
+   whose WRITING With calls carry ro = false. gen/gen_tx_order.py reads every
+   place where shard/index enters a shared cache off the source on every run
+   (TxOrder.cache_access_sites) and refuses any shape other than: the write
+   pipeline (dispatch.go) exclusive, the search path (search.go) shared. *)
+Theorem c11_sites_modes :
+  length TxOrder.cache_access_sites = 4 /\
+  forallb (fun s => let '(f, _, ro) := s in
+             if String.eqb f TxOrder.write_pipeline_file then negb ro
+             else if String.eqb f TxOrder.search_path_file then ro else false) TxOrder.cache_access_sites = true.
+Proof. vm_compute. split; reflexivity. Qed.
+Print Assumptions c11_sites_modes.
+
+(* why the mode matters: a transaction that mutates a cache it entered SHARED and then fails leaves that cache
+   registered and not scrapped (its Commit(true) has nothing in `written`); entered exclusively, the same
+   transaction scraps and unregisters it *)
+Theorem c11_writer_entered_shared_refuted :
+  (let st := run true true (-1) (rep 14 (LT 0)) (init [[OWith 0 true OK; OCommit true]]) in
+   done (txs st 0) = true /\ mmap st = [(0, 0)] /\ e_scrapped (elems st 0) = false) /\
+  (let st := run true true (-1) (rep 14 (LT 0)) (init [[OWith 0 false OK; OCommit true]]) in
+   done (txs st 0) = true /\ mmap st = [] /\ e_scrapped (elems st 0) = true).
+Proof. vm_compute. repeat split; reflexivity. Qed.
+Print Assumptions c11_writer_entered_shared_refuted.
